@@ -157,7 +157,7 @@ def rebuildTable (env : Env) (read : Loc → Option Bytes) (strings : List StrRe
     | some x =>
       match tableFind env read strings t x with
       | .ok none =>
-        match tableInsert t (env.hash x) k true (rehashFn env read strings) with
+        match tableInsert t (env.hash x) k false (rehashFn env read strings) with
         | .ok t' => rebuildTable env read strings rest t'
         | .err e => .err e
         | .panic => .panic
@@ -208,7 +208,7 @@ the loop left it and whether it ran to the end (`false`: an `expect` panicked at
 def Rodeo.extend (env : Env) (r : Rodeo) : List Bytes → Rodeo × Bool
   | [] => (r, true)
   | x :: rest =>
-    match r.tryIntern env x true with
+    match r.tryIntern env x (growAt r.strings.length) with
     | .ok (r', _) => Rodeo.extend env r' rest
     | _ => (r, false)
 
